@@ -446,31 +446,34 @@ pub fn run(doc: &Doc, body: &C02Doc, trace: bool) -> RunResult {
             None
         }
         Via2::GameData => {
+            // the entries are spread over two chunks of one category with the same dat number, so
+            // that consecutive extractions on one handle alternate between two dat files
+            let mk = |i: usize, e: &E2| EntrySpec {
+                path: format!("chara/c02/file{}.bin", i),
+                dat_id: body.dat_id,
+                in_index1: true,
+                in_index2: true,
+                phantom: None,
+                gap: e.gap,
+                kind: e.kind.clone(),
+            };
+            let mut packs = vec![PackSpec {
+                cat: 0x04,
+                chunk: 0,
+                kind: IndexKind::Both,
+                entries: body.entries.iter().enumerate().filter(|(i, _)| i % 2 == 0).map(|(i, e)| mk(i, e)).collect(),
+            }];
+            if body.entries.len() > 1 {
+                packs.push(PackSpec {
+                    cat: 0x04,
+                    chunk: 1,
+                    kind: IndexKind::Both,
+                    entries: body.entries.iter().enumerate().filter(|(i, _)| i % 2 == 1).map(|(i, e)| mk(i, e)).collect(),
+                });
+            }
             let spec = InstallSpec {
                 platform: body.platform,
-                repos: vec![RepoSpec {
-                    exp: 0,
-                    version_file: true,
-                    packs: vec![PackSpec {
-                        cat: 0x04,
-                        chunk: 0,
-                        kind: IndexKind::Both,
-                        entries: body
-                            .entries
-                            .iter()
-                            .enumerate()
-                            .map(|(i, e)| EntrySpec {
-                                path: format!("chara/c02/file{}.bin", i),
-                                dat_id: body.dat_id,
-                                in_index1: true,
-                                in_index2: true,
-                                phantom: None,
-                                gap: e.gap,
-                                kind: e.kind.clone(),
-                            })
-                            .collect(),
-                    }],
-                }],
+                repos: vec![RepoSpec { exp: 0, version_file: true, packs }],
                 strays: vec![],
                 secondary_segments: false,
             };
